@@ -49,6 +49,10 @@ pub enum Op16
     /// a broadcast and the first entity world reactor as an entity-scoped event (three tables keyed by one type).
     W4Add,
     W4Remove,
+    /// Fifth world reactor: `despawn(e)` triggers (at most one registration per entity at a time). The despawn operation
+    /// polls, so the reaction belongs to it.
+    W5Add(u8),
+    W5Remove(u8),
     /// An unrelated plain component is inserted on entity `e` (it moves to an archetype that did not exist when the
     /// reactor systems first ran). Once per entity.
     Tag(u8),
@@ -72,6 +76,8 @@ pub fn all_ops16() -> Vec<Op16>
         v.push(Op16::WAdd(e));
         v.push(Op16::WRemoveEntityMutation(e));
         v.push(Op16::Tag(e));
+        v.push(Op16::W5Add(e));
+        v.push(Op16::W5Remove(e));
     }
     v.push(Op16::FireBroadcast);
     v.push(Op16::WRemoveBroadcast);
@@ -105,6 +111,8 @@ pub enum Rec16
     World3(u8, i32),
     /// Fourth world reactor: entity index of the entity event it read (-1: nothing readable)
     World4(i32),
+    /// Fifth world reactor: entity index of the despawn it read (-1: nothing readable)
+    World5(i32),
 }
 
 thread_local!
@@ -202,6 +210,20 @@ impl WorldReactor for WR3
 #[derive(Component)]
 struct Tag16;
 
+struct WR5;
+impl WorldReactor for WR5
+{
+    type StartingTriggers = ();
+    type Triggers = DespawnTrigger;
+    fn reactor(self) -> SystemCommandCallback
+    {
+        SystemCommandCallback::new(|d: DespawnEvent| {
+            let rec = if let Ok(e) = d.get() { Rec16::World5(ent_index(e)) } else { Rec16::World5(-1) };
+            LOG.with(|l| l.borrow_mut().push(rec));
+        })
+    }
+}
+
 struct WR4;
 impl WorldReactor for WR4
 {
@@ -245,6 +267,10 @@ pub struct Model16
     pub w3_mut: u8,
     pub w4_any: u8,
     pub tagged: [bool; N_ENTS],
+    pub w5: [u8; N_ENTS],
+    /// The entity carries the despawn-tracker bookkeeping component (a despawn trigger was registered for it once): kept
+    /// in the state so that "registered and revoked" is not merged with "never registered".
+    pub dtracked: [bool; N_ENTS],
 }
 
 impl Model16
@@ -347,11 +373,16 @@ impl Model16
             Op16::W3RemoveInsertion => { if self.w3_ins > 0 { self.w3_ins -= 1; } }
             Op16::W3RemoveMutation => { if self.w3_mut > 0 { self.w3_mut -= 1; } }
             Op16::Tag(e) => { if self.alive[e as usize] { self.tagged[e as usize] = true; } }
+            Op16::W5Add(e) => { if self.alive[e as usize] { self.w5[e as usize] += 1; self.dtracked[e as usize] = true; } }
+            Op16::W5Remove(e) => { if self.w5[e as usize] > 0 { self.w5[e as usize] -= 1; } }
             Op16::W4Add => { self.w4_any += 1; }
             Op16::W4Remove => { if self.w4_any > 0 { self.w4_any -= 1; } }
             Op16::Despawn(e) =>
             {
                 let ei = e as usize;
+                for _ in 0..self.w5[ei] { out.push(Rec16::World5(ei as i32)); }
+                self.w5[ei] = 0;
+                self.dtracked[ei] = false;
                 self.alive[ei] = false;
                 self.has_comp[ei] = false;
                 self.tracked[ei] = false;
@@ -383,6 +414,7 @@ impl Model16
             Op16::W3AddMutation => self.w3_mut < 2,
             Op16::W4Add => self.w4_any < 2,
             Op16::Tag(e) => self.alive[e as usize] && !self.tagged[e as usize],
+            Op16::W5Add(e) => self.alive[e as usize] && self.w5[e as usize] < 1,
             Op16::Despawn(e) => self.alive[e as usize],
             _ => true,
         }).collect()
@@ -413,7 +445,7 @@ pub fn run16(hist: &[Op16]) -> StepResult<Key16>
     app.add_world_reactor_with(WR3, insertion::<CA>());
     app.add_plugins(ReactPlugin);
     app.world_mut().insert_react_resource(RA(0));
-    app.add_world_reactor(WR).add_entity_reactor(ER1).add_entity_reactor(ER2).add_world_reactor(WR4);
+    app.add_world_reactor(WR).add_entity_reactor(ER1).add_entity_reactor(ER2).add_world_reactor(WR4).add_world_reactor(WR5);
     let ents: Vec<Entity> = (0..N_ENTS).map(|_| app.world_mut().spawn_empty().id()).collect();
     ENTS.with(|v| *v.borrow_mut() = ents.clone());
     for e in ents.iter() { let e = *e; app.world_mut().react(|rc| rc.insert(e, CA(0))); }
@@ -514,7 +546,9 @@ pub fn run16(hist: &[Op16]) -> StepResult<Key16>
                 Op16::W4Add => { world.syscall((), |mut c: Commands, reactor: Reactor<WR4>| { reactor.add(&mut c, any_entity_event::<EvA>()); }); }
                 Op16::W4Remove => { world.syscall((), |mut c: Commands, reactor: Reactor<WR4>| { reactor.remove(&mut c, any_entity_event::<EvA>()); }); }
                 Op16::Tag(e) => { if let Ok(mut em) = world.get_entity_mut(ents[e as usize]) { em.insert(Tag16); } }
-                Op16::Despawn(e) => { world.try_despawn(ents[e as usize]); }
+                Op16::W5Add(e) => { let ent = ents[e as usize]; world.syscall(ent, |In(ent): In<Entity>, mut c: Commands, reactor: Reactor<WR5>| { reactor.add(&mut c, despawn(ent)); }); }
+                Op16::W5Remove(e) => { let ent = ents[e as usize]; world.syscall(ent, |In(ent): In<Entity>, mut c: Commands, reactor: Reactor<WR5>| { reactor.remove(&mut c, despawn(ent)); }); }
+                Op16::Despawn(e) => { world.try_despawn(ents[e as usize]); schedule_removal_and_despawn_reactors(world); }
                 Op16::WAdd(e) =>
                 {
                     let ent = ents[e as usize];
